@@ -128,36 +128,117 @@ def forbidden_scan():
     return hits
 
 
-def coq_makefile():
+def all_vfiles():
     vs = []
     for root, _, files in os.walk(os.path.join(COQ, "theories")):
         for f in files:
-            if f.endswith(".v"):
+            if f.endswith(".v") and not f.startswith("."):
                 vs.append(os.path.relpath(os.path.join(root, f), COQ))
-    vs.sort()
-    listing = "\n".join(vs)
-    stamp = os.path.join(COQ, ".vfiles")
-    old = open(stamp).read() if os.path.exists(stamp) else None
-    if old != listing or not os.path.exists(os.path.join(COQ, "Makefile")):
-        sh(["coq_makefile", "-f", "_CoqProject", "-o", "Makefile"] + vs, cwd=COQ, check=True)
-        open(stamp, "w").write(listing)
+    return sorted(vs)
+
+
+def coq_deps():
+    """file.v -> list of .v files of this development it Requires (via coqdep)."""
+    vs = all_vfiles()
+    rc, out = sh(["coqdep", "-Q", "theories", "PV"] + vs, cwd=COQ, timeout=600)
+    deps = {v: [] for v in vs}
+    for line in out.split("\n"):
+        if ":" not in line:
+            continue
+        lhs, rhs = line.split(":", 1)
+        tgt = [t for t in lhs.split() if t.endswith(".vo")]
+        if not tgt:
+            continue
+        v = tgt[0][:-1]
+        if v not in deps:
+            continue
+        for d in rhs.split():
+            if d.endswith(".vo") and d[:-1] in deps and d[:-1] != v:
+                deps[v].append(d[:-1])
+    return deps
+
+
+def _compile_one(v, deps, timeout):
+    """Compile v (deps already up to date) unless its .vo is fresh. Per-file lock."""
+    vo = os.path.join(COQ, v + "o")
+    src = os.path.join(COQ, v)
+
+    def fresh():
+        if not os.path.exists(vo):
+            return False
+        t = os.path.getmtime(vo)
+        if os.path.getmtime(src) > t:
+            return False
+        for d in deps[v]:
+            dvo = os.path.join(COQ, d + "o")
+            if not os.path.exists(dvo) or os.path.getmtime(dvo) > t:
+                return False
+        return True
+
+    if fresh():
+        return 0, ""
+    with Lock("vo-" + v.replace("/", "_")):
+        if fresh():
+            return 0, ""
+        rc, out = sh(["coqc", "-noglob", "-Q", "theories", "PV", "-w",
+                      "-notation-overridden,-deprecated-hint-without-locality,-deprecated-instance-without-locality",
+                      v], cwd=COQ, timeout=timeout)
+        if rc != 0 and os.path.exists(vo):
+            os.remove(vo)
+        return rc, "COQC %s\n%s" % (v, out)
 
 
 def coq_build(targets, clean=False, timeout=3000):
-    with Lock("coq"):
-        coq_makefile()
-        if clean:
-            sh(["make", "clean"], cwd=COQ)
-            coq_makefile()
-        rc, out = sh(["make", "-j16"] + targets, cwd=COQ, timeout=timeout)
-    return rc, out
+    """Full .vo build (never -vos/-vok) of the dependency cone of `targets`
+    (paths like theories/C14/Props.vo; empty list = everything)."""
+    deps = coq_deps()
+    if clean:
+        for v in deps:
+            for ext in ("o", "os", "ok"):
+                pth = os.path.join(COQ, v + ext)
+                if os.path.exists(pth):
+                    os.remove(pth)
+    want = [t[:-1] if t.endswith(".vo") else t for t in targets] or list(deps)
+    cone, stack = set(), list(want)
+    while stack:
+        v = stack.pop()
+        if v in cone:
+            continue
+        if v not in deps:
+            return 1, "no such Coq file: %s" % v
+        cone.add(v)
+        stack += deps[v]
+    done, outs, failed = set(), [], []
+    pending = set(cone)
+    with ThreadPoolExecutor(max_workers=16) as ex:
+        running = {}
+        while pending or running:
+            ready = [v for v in pending if all(d in done for d in deps[v])]
+            for v in ready:
+                pending.discard(v)
+                running[ex.submit(_compile_one, v, deps, timeout)] = v
+            if not running:
+                break  # cycle or failed deps
+            fin = next(iter(__import__("concurrent.futures").futures.wait(
+                list(running), return_when="FIRST_COMPLETED")[0]))
+            v = running.pop(fin)
+            rc, out = fin.result()
+            if out.strip():
+                outs.append(out)
+            if rc == 0:
+                done.add(v)
+            else:
+                failed.append(v)
+    if failed or pending:
+        return 1, "\n".join(outs) + "\nfailed: %s; not built: %s" % (failed, sorted(pending))
+    return 0, "\n".join(outs)
 
 
 def run_translators(cfg, repo):
     outs = []
     for t in cfg.get("translators", []):
         script = os.path.join(VERIF, "translators", t + ".py")
-        with Lock("coq"):
+        with Lock("translator-" + t):
             rc, out = sh([sys.executable, script, "--repo", repo, "--out", os.path.join(COQ, "theories", "Generated")],
                          timeout=300)
         outs.append((t, rc, out))
@@ -371,7 +452,7 @@ def main():
     assumptions_seen = {}
     discharged = 0
     obligations = len(cfg["theorems"])
-    checker_cmd = "make -C coq -j16 theories/%s/Props.vo theories/%s/Run.vo ; coqc <audit: Check pinned statements + Print Assumptions>" % (cfg["coq_dir"], cfg["coq_dir"])
+    checker_cmd = "coqc (full .vo build, dependency order via coqdep) of the cone of coq/theories/%s/Props.v and Run.v ; coqc <audit file: Check (thm : pinned statement) + Print Assumptions thm, for each theorem>" % cfg["coq_dir"]
     rc_code = 0
     known = [k for k in load_known() if k["property"] == pid]
     kkeys = {k["key"]: k for k in known}
